@@ -195,7 +195,7 @@ def run_case(typ, body, state, stats, V, as4=True):
     outcome = 'closed' if (tr.disconnecting or not tr.connected) else ('decoded' if r and r[0][0] != 'on_update_error' else
                                                                        'error-report' if r else 'ignored')
     stats['outcomes'][outcome] = stats['outcomes'].get(outcome, 0) + 1
-    if typ == 2 and state == 'ESTABLISHED':
+    if typ == 2 and state == 'ESTABLISHED' and len(body) >= 4:       # below 23 octets it is a header error, not an UPDATE
         stats['updates_in_established'] += 1
         if st != 'ESTABLISHED' or tr.disconnecting or not tr.connected:
             V.append(dict(kind='update-tore-down-session', features=feats,
